@@ -551,7 +551,7 @@ fn main() {
         if hang {
             n_hangs += 1;
         }
-        if (divergent && n_div_written < 300) || (rep.cases as usize) % sample_every == 1 {
+        if (divergent && n_div_written < 4000) || (rep.cases as usize) % sample_every == 1 {
             use std::io::Write;
             if divergent {
                 n_div_written += 1;
